@@ -46,6 +46,8 @@ def run_obs_job(pid, env, spec, entry, catmod, expect_raise=None):
                             facts=facts, goal=[], model=m)
             continue
         obs = t.result
+        lin_facts = t.path.facts(linear_only=True)
+        slicer = None
         nz = O.normaliser(env, t)
         for label, c in obs:
             if type(c) is tuple and c[0] == "cong" and nz.congruent(E.T(c[1]), E.T(c[2])):
@@ -57,7 +59,19 @@ def run_obs_job(pid, env, spec, entry, catmod, expect_raise=None):
                 H.STATS.syntactic += 1
                 job.obligation("syntactic")
                 continue
-            st, m = H.solve(facts, z3.Not(ct), job.timeout, label="%s %s: %s" % (pid, job.name, label))
+            # a subset of the facts is enough for an unsat answer: try without the non-linear product definitions first
+            st, m = "unknown", None
+            if len(facts) > 200:
+                if slicer is None:
+                    slicer = H.Slicer(lin_facts)
+                for hops in (1, 3):
+                    st, m = H.solve(slicer.slice(ct, hops), z3.Not(ct), job.timeout, label="%s %s: %s (slice %d)" % (pid, job.name, label, hops))
+                    if st == "unsat":
+                        break
+            if st != "unsat" and t.path.prod_axiom_ids:
+                st, m = H.solve(lin_facts, z3.Not(ct), job.timeout, label="%s %s: %s (linear facts)" % (pid, job.name, label))
+            if st != "unsat":
+                st, m = H.solve(facts, z3.Not(ct), job.timeout, label="%s %s: %s" % (pid, job.name, label))
             job.obligation(st)
             if st == "unknown":
                 job.inconclusive("path %d claim %s: solver unknown" % (pi, label))
@@ -68,7 +82,8 @@ def run_obs_job(pid, env, spec, entry, catmod, expect_raise=None):
         if not twin_done and obs:
             # vacuity twin: the negation of the last non-trivial claim must be refutable-or-satisfiable, i.e. the claim
             # is not vacuously true because the path facts are inconsistent
-            st, _ = H.solve(facts, [], job.timeout)
+            # (for very large paths only the path condition is tested: the axioms are definitions of fresh symbols)
+            st, _ = H.solve(facts if len(facts) <= 600 else (t.path.assume + t.path.pc), [], job.timeout)
             job.twin(st == "sat")
             twin_done = True
         job.sample(dict(path=pi, claims=[l for l, _ in obs][:6], path_condition=[str(z3.simplify(c))[:100] for c in t.path.pc[:3]]))
